@@ -28,7 +28,7 @@ func init() {
 
 const fedHeader = `From Coq Require Import String List ZArith Bool.
 Import ListNotations.
-From GW Require Import Base.Res Base.Json Gql.Syntax Gql.Spec Gql.Guards Gw.Locate Gw.LocateCheck Gw.FedCheck Gw.Points Gw.PointsCheck.
+From GW Require Import Base.Res Base.Json Gql.Syntax Gql.Spec Gql.Guards Gw.Locate Gw.LocateCheck Gw.FedCheck Gw.Points Gw.PointsCheck Gw.Select Gw.Vars.
 Local Open Scope string_scope.
 Local Open Scope bool_scope.
 `
@@ -416,6 +416,52 @@ func runFed(cfg *runCfg, prop string) error {
 					}
 					model = fmt.Sprintf("LocateCheck.model_agrees %d %s %s %s %s %s %s {| ob_planned := true; ob_fields := [%s] |}",
 						len(parsed.Fragments)+2, c.Strs(cs.Fed.Priorities), c.URLMap(fed.Cap.Locs), c.FieldTypes(fed.Cap.Schema), frags, c.S(root), sels, strings.Join(of, "; "))
+				}
+			}
+			if prop == "C02" && model != "true" {
+				// the variables each step declares against the model of plan.go's bookkeeping
+				if plans, perr := fed.Plan(q.Text); perr == nil && one.OpIndex < len(plans) {
+					var walkSteps func(st *gateway.QueryPlanStep)
+					walkSteps = func(st *gateway.QueryPlanStep) {
+						if st.QueryDocument != nil && len(st.QueryDocument.Operations) == 1 {
+							sv := []string{}
+							for v := range st.Variables {
+								sv = append(sv, v)
+							}
+							sort.Strings(sv)
+							decl := []string{}
+							for _, vd := range st.QueryDocument.Operations[0].VariableDefinitions {
+								if vd != nil {
+									decl = append(decl, vd.Variable)
+								}
+							}
+							dep := st.ParentType != "Query" && st.ParentType != "Mutation" && st.ParentType != "Subscription"
+							model += fmt.Sprintf(" && vars_agree %s %s %s %s %s %s", c.Sels(st.SelectionSet), c.Frags(st.FragmentDefinitions),
+								c.Strs(sv), c.Strs(varnames), coqBool(dep), c.Strs(decl))
+						}
+						for _, t := range st.Then {
+							walkSteps(t)
+						}
+					}
+					walkSteps(plans[one.OpIndex].RootStep)
+				}
+			}
+			if prop == "C17" {
+				names := []string{}
+				for _, o := range parsed.Operations {
+					names = append(names, o.Name)
+				}
+				selErr := obs.Class == 2 && (strings.Contains(obs.Note, "please provide an operation name") || strings.Contains(obs.Note, "could not find query for operation"))
+				ran := obs.Class != 1 && !selErr
+				ranName := "<none>"
+				if len(obs.Calls) > 0 {
+					ranName = obs.Calls[0].OpName
+				}
+				sel := fmt.Sprintf("select_agrees %s %s %s %s", c.Strs(names), c.S(opName), coqBool(ran), c.S(ranName))
+				if model == "true" {
+					model = sel
+				} else {
+					model += " && " + sel
 				}
 			}
 			var oracle string
